@@ -122,6 +122,15 @@ Theorem c07_selfban_detaches_every_session : forall f s c n sid u t mode ch w,
   cwant (h_ca h) u = Some w -> is_joiner w = false -> no_sess (h_ca h) u.
 Proof. exact set_sub_selfban_c07f. Qed.
 
+(* The same through {sub set.sub.mode=<no J>} (from an attached or a not yet attached session): accepted with a
+   changed mode whose want & given lacks J - the requester is not attached and no other session of the user stays. *)
+Theorem c07_selfban_by_sub_detaches_every_session : forall f s c n sid u want bkg w g w',
+  snd (this_user_sub f s c n sid u want (match alookup u (c_users c) with Some _ => false | None => true end)) = SubOk (Some (w, g)) ->
+  is_joiner (N.land g w) = false ->
+  let h := sub_reply f s c n sid u want bkg in
+  cwant (h_ca h) u = Some w' -> is_joiner w' = false -> no_sess (h_ca h) u.
+Proof. exact sub_reply_selfban_c07f. Qed.
+
 (* non-vacuity: user 2 is attached ONLY through two background sessions (online counter 0); the owner
    sets his grant to RWP: both sessions are detached and both are sent {ctrl 205} *)
 Example c07_ex_ban_background_only :
@@ -270,6 +279,7 @@ Print Assumptions c07_ban_detaches_every_session.
 Print Assumptions c07_evicted_session_notified.
 Print Assumptions c07_evict_detaches_every_session.
 Print Assumptions c07_selfban_detaches_every_session.
+Print Assumptions c07_selfban_by_sub_detaches_every_session.
 Print Assumptions c07_sub_limit.
 Print Assumptions c07_no_join_no_attach_refuted.
 Print Assumptions c07_given_writers_refuted.
